@@ -161,6 +161,9 @@ func (in *Interp) runPath(ex *Explorer, fn *ssa.Function, it workItem, cfg *RunC
 				switch e := r.(type) {
 				case *engineAbort:
 					abort = e
+					if e.Kind == "unsupported" || e.Kind == "internal" || e.Kind == "unwind" {
+						e.Msg += "\n" + in.callStack(in.curFrame)
+					}
 				case *targetPanic:
 					tpanic = e
 				case *engineCrash:
